@@ -435,6 +435,10 @@ func runC42(c *Ctx) {
 		c.Check(idx("join:validatePool<p0") >= 0 && idx("join:validatePool<p0") < idx("close:validatedChan<p0"), "send-close-discipline", sk+":close-validated", stop.Pos(), "validatedChan is closed after the validate workers were joined", "validatedChan is closed while validate workers may still send on it")
 		c.Check(idx("join:applyRunner<p0") >= 0 && idx("join:applyRunner<p0") < idx("close:resultsChan<p0") && idx("join:applyRunner<p0") < idx("close:errorsChan<p0"), "send-close-discipline", sk+":close-results", stop.Pos(), "results and errors channels are closed after the apply runner was joined", "results/errors channels are closed while the apply runner may still send on them")
 	}
+	// (6) in-order application presupposes that every submitted item carries its own sequence number: the rules that
+	// tie reading, carrying and consuming the counter together (decided for C44) are necessary here as well — two items
+	// with one number, or a number never handed over, stall the apply stage for good
+	runC44(c)
 }
 
 func runC43(c *Ctx) {
